@@ -80,7 +80,7 @@ pub fn traces(ops_path: &str, impl_path: &str) {
     std::fs::write(impl_path, imp).unwrap();
 }
 
-/// Thread A walks the tree; the gate parks A whenever it is about to acquire while already
+/// Thread A makes every `&self` call (lookups, listings, both iterators); the gate parks A whenever it is about to acquire while already
 /// holding a guard, lets the writer B start waiting for the lock, then releases A.
 /// Prints `completed` or `deadlock`.
 pub fn steer() {
@@ -131,7 +131,25 @@ pub fn steer() {
     let a_done2 = a_done.clone();
     let a = std::thread::spawn(move || {
         a_id2.store(thread_id(), Ordering::SeqCst);
-        let n = c1.walk().count();
+        // every call that takes `&self`: the gate parks this thread at the first acquisition made
+        // while a guard is already held, whichever call makes it
+        let mut n = 0usize;
+        let _ = c1.version();
+        let _ = c1.root_entry();
+        let _ = c1.entry("/m/k/s");
+        let _ = c1.entry("/nope");
+        n += c1.exists("/m/k") as usize + c1.exists("/q/q") as usize;
+        n += c1.is_stream("/s1") as usize + c1.is_stream("/m") as usize + c1.is_stream("/nope") as usize;
+        n += c1.is_storage("/m") as usize + c1.is_storage("/s1") as usize + c1.is_storage("/nope") as usize;
+        n += c1.read_root_storage().count();
+        n += c1.read_storage("/m").map(|it| it.count()).unwrap_or(0);
+        n += c1.walk().count();
+        n += c1.walk_storage("/m").map(|it| it.count()).unwrap_or(0);
+        {
+            let mut it = c1.walk();
+            it.next();
+            it.next();
+        }
         a_done2.store(true, Ordering::SeqCst);
         n
     });
